@@ -1,5 +1,5 @@
 #!/bin/sh
-# Must-fail corpus: applies every seeded change under /verif/seeded to /repo (one at a
+# Must-fail corpus (about two hours for all 52 seeds; nothing else may use /repo meanwhile): applies every seeded change under /verif/seeded to /repo (one at a
 # time, restored afterwards) and runs the quick check of the property expected to
 # catch it (seeded/EXPECTED.txt: "<seed> <property|missed>"). Prints one line per seed
 # and a summary; exit 1 if a seed expected to be detected was missed.
